@@ -1221,7 +1221,9 @@ func (p *Printer) command(cmd Command, redirs []*Redirect) (startRedirs int) {
 			p.wantSpace = spaceRequired
 			// Add a space between nested parentheses if we're printing them in a single line,
 			// to avoid the ambiguity between `((` and `( (`.
-			if (cmd.Lparen.Line() != stmts[0].Pos().Line() || len(stmts) > 1) && !p.singleLine {
+			// Nor is it needed if the statements are to start on a new line, as with `( (foo)\n)`.
+			if (cmd.Lparen.Line() != stmts[0].Pos().Line() || len(stmts) > 1 ||
+				stmtsEnd(stmts, cmd.Last).Line() < cmd.Rparen.Line()) && !p.singleLine {
 				p.wantSpace = spaceNotRequired
 
 				if p.minify {
